@@ -2,7 +2,8 @@
 import re
 
 from ..common import Report
-from ..corpus import load, load_repo_tests
+from ..corpus import load, load_repo_tests, load_repo_examples
+from ..docgen import load_repo_docs
 from ..crossgen import load_cross
 from ..wrules import FnModView, TraitView, last_seg
 
@@ -40,6 +41,8 @@ def run(tier):
     loaded += [(cfg, load_cross(rep, cfg, tier)) for cfg in configs]
     if tier == "thorough":
         loaded.append(("unimock_test", load_repo_tests(rep)))
+        loaded += [("unimock_test", ld) for ld in load_repo_examples(rep)]
+        loaded.append(("unimock_test", load_repo_docs(rep)))
     for cfg, ld in loaded:
         crate = ld.crate
         for exp in crate.expansions:
